@@ -16,6 +16,16 @@
 (*  R  kind r cur     the real reader returned an object of Go type `kind` *)
 (*        with the leaves r; cur = length - Available() afterwards         *)
 (*  End n len         n items were read from a stream of len bytes         *)
+(*  Keep h            the output handed back for the stream written so far *)
+(*        is put aside (the h-th of the history); a new stream begins      *)
+(*  Peek h via bytes  kept output h is taken up again after later calls of *)
+(*        the encoder / decoder: `bytes` is what it holds NOW (via = which *)
+(*        handed-back thing was looked at: the DataOutputX, the slice      *)
+(*        ToBytesStep / TxRecord.ToBytes returned, the pack); R follow     *)
+(*  RO kind r         TxRecord.ToObject on the kept slice of the next      *)
+(*        record (exactly its own bytes; no cursor to observe)             *)
+(*  Again j kind r    the j-th object the reader returned in this history, *)
+(*        projected again NOW                                              *)
 (*  Create fam tag kind reports    the factory's answer for a tag          *)
 (*  TagOf fam kind tag back        the tag a type reports and what the     *)
 (*        factory creates for it                                           *)
@@ -38,7 +48,7 @@ TraceInit == Init /\ l = 1 /\ cnt = 0 /\ HwmInit
 Step(e) == IsEv(l, e) /\ l' = l + 1
 
 TraceReset == /\ Step("Reset")
-              /\ stream' = <<>> /\ items' = <<>> /\ cursor' = 0 /\ rd' = <<>> /\ cnt' = 0
+              /\ stream' = <<>> /\ items' = <<>> /\ cursor' = 0 /\ rd' = <<>> /\ shelf' = <<>> /\ objs' = <<>> /\ cnt' = 0
 
 TraceW ==
   /\ Step("W")
@@ -57,6 +67,21 @@ TraceCarry == /\ Step("Carry") /\ Whole(Trace[l].out) /\ cnt' = cnt
 TraceR ==
   /\ Step("R")
   /\ LET e == Trace[l] IN Read(e.kind, e.r, e.cur)
+  /\ cnt' = cnt + 1
+
+\* the output handed back for the stream written so far is put aside under handle h (= their running number)
+TraceKeep == /\ Step("Keep") /\ Keep /\ Trace[l].h = Len(shelf') /\ cnt' = 0
+\* kept output h, as it is NOW (after everything that was encoded and decoded since), is taken up again and read
+TracePeek == /\ Step("Peek") /\ Peek(Trace[l].h, Trace[l].bytes) /\ cnt' = 0
+\* the j-th object the reader returned in this history, as it is NOW
+TraceAgain == /\ Step("Again") /\ LET e == Trace[l] IN Again(e.j, e.kind, e.r) /\ cnt' = cnt
+
+\* TxRecord.ToObject on the kept slice of one record: the reader is given exactly the record's own bytes and shows
+\* no cursor
+TraceRO ==
+  /\ Step("RO")
+  /\ Len(rd) < Len(items)
+  /\ LET e == Trace[l] IN Read(e.kind, e.r, cursor + items[Len(rd) + 1].len)
   /\ cnt' = cnt + 1
 
 TraceEnd ==
@@ -87,9 +112,10 @@ TraceEnd0 == /\ Step("End0") /\ cnt = Trace[l].n /\ UNCHANGED <<vars, cnt>>
 
 \* rd only grows: the per-item laws are evaluated for the item read last
 InvLast == /\ (rd # <<>> => ReadBackAt(Len(rd)) /\ TxNormalizeAt(Len(rd)))
-           /\ CursorExact /\ AllConsumed /\ WireOK
+           /\ CursorExact /\ AllConsumed /\ WireOK /\ KeptWire
 
 TraceNext == (TraceReset \/ TraceW \/ TraceWhole \/ TraceCarry \/ TraceR \/ TraceEnd
+              \/ TraceKeep \/ TracePeek \/ TraceAgain \/ TraceRO
               \/ TraceCreate \/ TraceTagOf \/ TraceEnd0) /\ InvLast'
 
 TraceSpec == TraceInit /\ [][TraceNext]_tvars
